@@ -34,6 +34,12 @@ class P:
     def __post_init__(self):
         self.u = self.a       # an attribute the class does not declare (no field, no class attribute): it exists on instances only
 
+    @property
+    def fa(self):
+        """`a`, read through a property that raises Boom at its j-th access when armed (fault injection for C04)"""
+        _fault_tick()
+        return self.a
+
     def big(self, k=2):
         return self.a > k
 
@@ -81,6 +87,12 @@ class PE:
     def __post_init__(self):
         self.u = self.a       # an attribute the class does not declare (no field, no class attribute): it exists on instances only
 
+    @property
+    def fa(self):
+        """`a`, read through a property that raises Boom at its j-th access when armed (fault injection for C04)"""
+        _fault_tick()
+        return self.a
+
     def big(self, k=2):
         return self.a > k
 
@@ -117,6 +129,12 @@ class Q:
     def __post_init__(self):
         self.u = self.a       # an attribute the class does not declare (no field, no class attribute): it exists on instances only
 
+    @property
+    def fa(self):
+        """`a`, read through a property that raises Boom at its j-th access when armed (fault injection for C04)"""
+        _fault_tick()
+        return self.a
+
     def big(self, k=2):
         return self.a > k
 
@@ -137,6 +155,12 @@ class Boom(Exception):
 
 FAULT = {"calls": 0, "raise_at": None}
 PRED_CALLS = Counter()
+
+
+def _fault_tick():
+    FAULT["calls"] += 1
+    if FAULT["raise_at"] is not None and FAULT["calls"] == FAULT["raise_at"]:
+        raise Boom()
 
 
 @predicate
